@@ -148,7 +148,10 @@ def unmarshal (recv : V) (data : Slice) : R V := do
           .ok { next := s.next + 8, elems := s.elems ++ [HelloElemVersionBitmap.new], err := true }
         | .panic => .panic
         | .spin => .spin
-      | _ => .ok s   -- unknown element type: nothing advances
+      | .obj _ [_, .num elen] =>
+        -- unknown element type: skipped by its declared length (an impossible length is an error)
+        if elen < 4 then .err else .ok { s with next := s.next + elen }
+      | _ => .panic
     )
     { next := 8, elems := [], err := e0 }
   if st.err then .err else pure (.obj "Hello" [hdr, .list st.elems])
